@@ -72,6 +72,20 @@ def main():
     for e, ps in engines.items():
         man["engines"].append({"name": e, "path": "coq/theories", "serves_properties": ps, "kind_free_text": "Gallina model + Coq proofs + extracted OCaml driver vs Rust harness"})
     json.dump(man, open(os.path.join(VERIF, "MANIFEST.json"), "w"), indent=1)
+    # per-property table of DESIGN.md section 0.7
+    import re
+    rows = ["| id | level | technique | what the claim covers | assumed / not covered / findings |", "|---|---|---|---|---|"]
+    for pid in PROPS:
+        if pid in CHECKS:
+            cat, eng, tech, text, note = CHECKS[pid]
+            rows.append(f"| {pid} | {cat} | {tech} | {text} | {note} |")
+        else:
+            rows.append(f"| {pid} | — | — | not claimed yet | {PENDING_REASON} |")
+    dp = os.path.join(VERIF, "DESIGN.md")
+    d = open(dp).read()
+    if "<!-- PROP_TABLE_BEGIN -->" in d:
+        d = re.sub(r"(<!-- PROP_TABLE_BEGIN -->).*?(<!-- PROP_TABLE_END -->)", lambda m: m.group(1) + "\n" + "\n".join(rows) + "\n" + m.group(2), d, flags=re.S)
+        open(dp, "w").write(d)
 
 if __name__ == "__main__":
     main()
